@@ -553,7 +553,9 @@ def check_c03(run: Run, prog: Program) -> None:
         "decides, for real non-zero scale factors and finite polytope vertices, that every sign/order decision, every equality test, "
         "every numeric return of a metric/measure function and every point construction in the package is a function of degree-0 (or "
         "even/absolute-degree, zero-threshold) quantities of each argument's raw coordinates - a dimensional-analysis type system over all "
-        "paths; and that == of every projective class goes through the scalar-multiple test. NOT decided: magnitude effects of the absolute "
+        "paths; that == of every projective class goes through the scalar-multiple test; and (E6.K7w) that a matrix assembled by item assignment from normalised / "
+        "divided coordinates is typed after a value that went through the division too, not after the raw representative (an integer representative would "
+        "truncate the fractional coordinates: a different quadric for [1, 1, 1, 2] than for [0.5, 0.5, 0.5, 1]). NOT decided: magnitude effects of the absolute "
         "tolerances, results that go through basis_matrix/null_space of raw data, is_multiple itself, complex scale factors. Package "
         "primitives (join, meet, project, base_point, ...) are assumed to return some representative of a well-defined object."
     )
@@ -564,7 +566,11 @@ def check_c03(run: Run, prog: Program) -> None:
     run.floor("comparison / construction sinks on coordinate data", n1, 30)
     run.floor("numeric return paths", n2, 10)
     run.floor("__eq__ resolutions", n3, 15)
-    run.stats.update({"sinks": n1, "numeric_returns": n2, "eq_resolutions": n3})
+    # the dtype of an assembled matrix: a value that was normalised / divided must not be stored into a buffer typed after the raw representative
+    from geolint import kinds
+    n4 = kinds.rule_K7w(run, prog)
+    run.floor("stores of widened values into assembled buffers", n4, 6)
+    run.stats.update({"sinks": n1, "numeric_returns": n2, "eq_resolutions": n3, "widened_stores": n4})
     for name in ("PolygonTensor.contains", "Triangle.contains", "SegmentTensor.contains"):
         prog.func(name)
 
